@@ -976,6 +976,75 @@ def r41_iter_mut_for_each(text, base_line=0):
         text = text[:m.start()] + new + text[k + tail.end():]
 
 
+def r57_iter_mut_for_each_while(text, base_line=0):
+    """R57: `E.iter_mut().for_each(|X| BODY);` -> `{ let ghost __g_X = E@; let mut __i_X = 0; while __i_X < E.len() { let X = &mut E[__i_X]; BODY; __i_X += 1; } }` (R41 as a `while`, plus an erased ghost snapshot of E:
+    the range end of a `for` is not linked to the vector once an element is mutably borrowed)"""
+    log = []
+    pat = re.compile(r"([\w\.]+)\s*\.iter_mut\(\)\s*\.for_each\(\|(\w+)\|\s*")
+    while True:
+        m = pat.search(text)
+        if not m:
+            return text, log
+        e, x = m.groups()
+        k, depth = m.end(), 0
+        while k < len(text):
+            ch = text[k]
+            if ch in "([{":
+                depth += 1
+            elif ch in ")]}":
+                if depth == 0:
+                    break
+                depth -= 1
+            k += 1
+        tail = re.match(r"\)\s*;", text[k:])
+        if not tail:
+            raise LostAnchor("R57: `);` does not follow the for_each closure")
+        body = text[m.end():k]
+        new = "{ let ghost __g_%s = %s@; let mut __i_%s: usize = 0; while __i_%s < %s.len() { let %s = &mut %s[__i_%s]; %s; __i_%s += 1; } }" % (x, e, x, x, e, x, e, x, body, x)
+        log.append("R57 line %d: `%s.iter_mut().for_each(|%s| ..);` -> `while` loop over the indices, `%s` bound to `&mut %s[i]`" % (base_line + text.count("\n", 0, m.start()), e, x, x, e))
+        text = text[:m.start()] + new + text[k + tail.end():]
+
+
+def r58_zip_mut_for_each_while(text, base_line=0):
+    """R58: `E1.iter_mut().zip(E2.iter()).for_each(|(A, B)| BODY);` -> `{ let ghost __g_A = E1@; let mut __i_A = 0; while __i_A < E1.len() && __i_A < E2.len()
+    { let A = &mut E1[__i_A]; let B = &E2[__i_A]; BODY; __i_A += 1; } }` (the pairs `zip` yields, in order; erased ghost snapshot of E1)"""
+    log = []
+    pat = re.compile(r"(\w+)\s*\.iter_mut\(\)\s*\.zip\((\w+)\.iter\(\)\)\s*\.for_each\(\|\((\w+),\s*(\w+)\)\|\s*")
+    while True:
+        m = pat.search(text)
+        if not m:
+            return text, log
+        e1, e2, a, b = m.groups()
+        k, depth = m.end(), 0
+        while k < len(text):
+            ch = text[k]
+            if ch in "([{":
+                depth += 1
+            elif ch in ")]}":
+                if depth == 0:
+                    break
+                depth -= 1
+            k += 1
+        tail = re.match(r"\)\s*;", text[k:])
+        if not tail:
+            raise LostAnchor("R58: `);` does not follow the for_each closure")
+        body = text[m.end():k]
+        new = ("{ let ghost __g_%s = %s@; let mut __i_%s: usize = 0; while __i_%s < %s.len() && __i_%s < %s.len() { let %s = &mut %s[__i_%s]; let %s = &%s[__i_%s]; %s; __i_%s += 1; } }"
+               % (a, e1, a, a, e1, a, e2, a, e1, a, b, e2, a, body, a))
+        new += "\n" * max(0, text[m.start():m.end()].count("\n") - new.count("\n") + body.count("\n"))
+        log.append("R58 line %d: `%s.iter_mut().zip(%s.iter()).for_each(|(%s, %s)| ..);` -> `while` loop over the common indices" % (base_line + text.count("\n", 0, m.start()), e1, e2, a, b))
+        text = text[:m.start()] + new + text[k + tail.end():]
+
+
+def r59_assert_eq_shape(text, base_line=0):
+    """R59: `assert_eq_shape!(A, B);` -> `if A != B { panic!("shape mismatch"); }` (the macro of src/tensor.rs written out; the message is dropped)"""
+    log = []
+    pat = re.compile(r"assert_eq_shape!\(([^,()]+),\s*([^,()]+)\);")
+    for m in pat.finditer(text):
+        log.append("R59 line %d: `%s` -> `if %s != %s { panic!(..) }` (macro expansion, message dropped)" % (base_line + text.count("\n", 0, m.start()), m.group(0), m.group(1), m.group(2)))
+    return pat.sub(lambda m: 'if %s != %s { panic!("shape mismatch"); }' % (m.group(1), m.group(2)), text), log
+
+
 def r36_extend(text, base_line=0):
     """R36: `X.extend(Y);` (Y a reference to a Vec of `Copy` elements) -> `for __e in 0..Y.len() { X.push(Y[__e]); }`"""
     log = []
@@ -1327,9 +1396,9 @@ REWRITES = {
     "R1": r1_compound_assign, "R2": r2_unary_minus, "R3": r3_scale_call, "R6": r6_for_with_continue,
     "R7": r7_isqrt, "R8": r8_step_by, "R9": r9_consts, "R10": r10_tail_continue,
     "R12": r12_enumerate, "R15": r15_iter, "R16": r16_map_index, "R17": r17_for_in_ref_vec, "R18": r18_assert_eq_shape,
-    "R19": r19_last_unwrap, "R20": r20_range_enumerate, "R21": r21_to_owned, "R22": r22_map_collect, "R23": r23_slice_iter, "R24": r24_name_wildcard_loop, "R25": r25_par_map_collect, "R26": r26_zip_iter_mut, "R27": r27_sum_f32, "R28": r28_as_f32, "R29": r29_consuming_for, "R30": r30_rev_take_collect, "R31": r31_zip_map_sum, "R32": r32_chunked_zip_flat_map, "R33": r33_unzip, "R34": r34_chunked_flat_map, "R35": r35_chunk_const, "R36": r36_extend, "R37": r37_for_in_ref, "R38": r38_flat_map3, "R39": r39_unflatten, "R42": r42_assert_eq, "R43": r43_mut_self, "R44": r44_name_tail_call, "R45": r45_min_method, "R47": r47_zip_mut_enumerate, "R48": r48_fold_max, "R49": r49_chunks_exact_view, "R50": r50_inner_map_collect, "R51": r51_last_mut, "R52": r52_extend_clone, "R53": r53_flat_zip_map_sum, "R54": r54_zip_map_collect, "R55": r55_len_as_f32, "R56": r56_extend_map, "R46": r46_f32_as_usize, "R40": r40_for_mut_ref, "R41": r41_iter_mut_for_each, "R13": r13_panic_allowed, "R14": r14_panic_forbidden,
+    "R19": r19_last_unwrap, "R20": r20_range_enumerate, "R21": r21_to_owned, "R22": r22_map_collect, "R23": r23_slice_iter, "R24": r24_name_wildcard_loop, "R25": r25_par_map_collect, "R26": r26_zip_iter_mut, "R27": r27_sum_f32, "R28": r28_as_f32, "R29": r29_consuming_for, "R30": r30_rev_take_collect, "R31": r31_zip_map_sum, "R32": r32_chunked_zip_flat_map, "R33": r33_unzip, "R34": r34_chunked_flat_map, "R35": r35_chunk_const, "R36": r36_extend, "R37": r37_for_in_ref, "R38": r38_flat_map3, "R39": r39_unflatten, "R42": r42_assert_eq, "R43": r43_mut_self, "R44": r44_name_tail_call, "R45": r45_min_method, "R47": r47_zip_mut_enumerate, "R48": r48_fold_max, "R49": r49_chunks_exact_view, "R50": r50_inner_map_collect, "R51": r51_last_mut, "R52": r52_extend_clone, "R53": r53_flat_zip_map_sum, "R54": r54_zip_map_collect, "R55": r55_len_as_f32, "R56": r56_extend_map, "R57": r57_iter_mut_for_each_while, "R58": r58_zip_mut_for_each_while, "R59": r59_assert_eq_shape, "R46": r46_f32_as_usize, "R40": r40_for_mut_ref, "R41": r41_iter_mut_for_each, "R13": r13_panic_allowed, "R14": r14_panic_forbidden,
 }
-ORDER = ["R42", "R43", "R44", "R28", "R46", "R45", "R47", "R48", "R49", "R18", "R13", "R14", "R16", "R55", "R53", "R54", "R56", "R50", "R51", "R52", "R40", "R41", "R38", "R39", "R36", "R37", "R31", "R32", "R34", "R35", "R33", "R25", "R26", "R29", "R30", "R27", "R20", "R22", "R23", "R24", "R12", "R15", "R17", "R19", "R21", "R10", "R8", "R6", "R9", "R7", "R3", "R1", "R2"]
+ORDER = ["R42", "R43", "R44", "R28", "R46", "R45", "R47", "R48", "R49", "R18", "R13", "R14", "R16", "R55", "R53", "R54", "R56", "R50", "R51", "R52", "R40", "R59", "R58", "R57", "R41", "R38", "R39", "R36", "R37", "R31", "R32", "R34", "R35", "R33", "R25", "R26", "R29", "R30", "R27", "R20", "R22", "R23", "R24", "R12", "R15", "R17", "R19", "R21", "R10", "R8", "R6", "R9", "R7", "R3", "R1", "R2"]
 
 
 def apply_rewrites(text, names, base_line):
